@@ -568,6 +568,22 @@ func covered(held LS, g *Guard, mode int) bool {
 	return false
 }
 
+// externallyCalled: the call graph has an edge into fn from code outside the module (a library
+// invoking an interface method or a callback), or fn's address is taken as a value.
+func (a *Analysis) externallyCalled(fn *ssa.Function) bool {
+	if n := a.W.VTA().Nodes[fn]; n != nil {
+		for _, e := range n.In {
+			if e.Caller != nil && e.Caller.Func != nil {
+				return true
+			}
+		}
+	}
+	if refs := fn.Referrers(); refs != nil && len(*refs) > 0 {
+		return true
+	}
+	return false
+}
+
 // isRoot: function can be entered from outside the analysed call edges with no locks held.
 func (a *Analysis) isRoot(fn *ssa.Function) bool {
 	if fn.Parent() == nil && fn.Object() != nil && fn.Object().Exported() {
@@ -631,7 +647,11 @@ func (a *Analysis) unmet(fn *ssa.Function, g *Guard, mode int, seen map[*ssa.Fun
 		return []string{world.FuncName(fn) + " [public API root]"}, []*ssa.Function{fn}, fn
 	}
 	if len(callers) == 0 {
-		return []string{world.FuncName(fn) + " [root: no caller in the module]"}, []*ssa.Function{fn}, fn
+		if a.externallyCalled(fn) {
+			return []string{world.FuncName(fn) + " [root: called back by a library / through a function value]"}, []*ssa.Function{fn}, fn
+		}
+		// no caller at all: dead (or test-only) code cannot race with anything
+		return nil, nil, nil
 	}
 	for _, s := range callers {
 		if s.isGo {
@@ -667,7 +687,7 @@ func (a *Analysis) EntryHeld() map[*ssa.Function]LS {
 	}
 	entry := map[*ssa.Function]LS{}
 	for _, fn := range a.fns {
-		if a.isRoot(fn) || len(a.callers[fn]) == 0 {
+		if a.isRoot(fn) || (len(a.callers[fn]) == 0 && a.externallyCalled(fn)) {
 			entry[fn] = LS{}
 		} else {
 			entry[fn] = top.clone()
